@@ -192,16 +192,17 @@ var keyPool = []struct{ raw, nfc string }{
 
 // GenOpts steers generation.
 type GenOpts struct {
-	Dynamic  bool // allow dynamic placeholders in types
-	Optional bool // allow optional attributes in object types
-	Capsule  bool
-	Marks    bool
-	Unknown  bool
-	Null     bool
-	Refine   bool
-	NoSet    bool
-	Collide  bool // collision-biased numbers
-	MaxLen   int
+	Dynamic   bool // allow dynamic placeholders in types
+	Optional  bool // allow optional attributes in object types
+	Capsule   bool
+	Marks     bool
+	Unknown   bool
+	Null      bool
+	Refine    bool
+	NoSet     bool
+	Collide   bool // collision-biased numbers
+	MarkDense bool // every second node marked instead of every sixth
+	MaxLen    int
 }
 
 func genType(c *Ctx, depth int, o GenOpts) *TDesc {
@@ -462,13 +463,13 @@ const (
 )
 
 type RefDesc struct {
-	NotNull          bool
-	HasLo, HasHi     bool
-	Lo, Hi           NumDesc
-	LoInc, HiInc     bool
-	Prefix           string
-	MinLen, MaxLen   int // MaxLen < 0: unbounded
-	HasMin, HasMax   bool
+	NotNull        bool
+	HasLo, HasHi   bool
+	Lo, Hi         NumDesc
+	LoInc, HiInc   bool
+	Prefix         string
+	MinLen, MaxLen int // MaxLen < 0: unbounded
+	HasMin, HasMax bool
 }
 
 type VDesc struct {
@@ -487,7 +488,14 @@ type VDesc struct {
 var markPool = []string{"m1", "m2", "sensitive"}
 
 func genMarks(c *Ctx, o GenOpts) []string {
-	if !o.Marks || c.G(6) != 5 {
+	if !o.Marks {
+		return nil
+	}
+	if o.MarkDense {
+		if c.G(2) == 0 {
+			return nil
+		}
+	} else if c.G(6) != 5 {
 		return nil
 	}
 	m := []string{markPool[c.G(len(markPool))]}
